@@ -20,7 +20,9 @@ def main():
         need = meta.get("needs_to_manifest", "").replace("|", "/")
         if v["caught"]:
             sig = v["signatures"][0]
-            rows.append(f"| `{k}` | {v['property']} | {need[:170]} | `{sig['oracle']}` @ `{sig['locus'][:64]}` | {sum(x['occurrences'] for x in v['signatures'])} | {sig['first_seed_index']} |")
+            by = v.get("caught_by") or v["property"]
+            tag = "" if by == v["property"] else f" (by {by}'s check)"
+            rows.append(f"| `{k}` | {v['property']} | {need[:170]} | `{sig['oracle']}` @ `{sig['locus'][:64]}`{tag} | {sum(x['occurrences'] for x in v['signatures'])} | {sig['first_seed_index']} |")
         else:
             rows.append(f"| `{k}` | {v['property']} | {need[:170]} | **not caught** - outside what {v['property']} states (see text) | 0 | - |")
     caught = sum(1 for k in names if r[k]["caught"])
